@@ -27,6 +27,9 @@ func (d *Data) NewFilter(fs storage.FilterSpec) (storage.Filter, error) {
 		dvid.Debugf("No ROI found so using generic data push for data %q.\n", d.DataName())
 		return nil, nil
 	}
+	if err := d.checkROIBlockSize(&ROI{Iter: roiIterator}, "in filter"); err != nil {
+		return nil, err
+	}
 	return &Filter{d, fs, roiIterator}, nil
 }
 
